@@ -54,12 +54,13 @@ def cmd_indirection(ctx):
     ctx.ob(R, f.fq + '|rule-command-is-$cmd', ok, f.node,
            'generic rule command is not the variable reference cmd (only)')
     builds = [e for e in F.effects(f, lambda e: e.name == 'build', depth=1)
-              if Q.kwarg(e.call, 'variables') is not None]
+              if e.kw_exprs('variables')]
     ok = bool(builds)
     for e in builds:
-        rec = F.flow.record(Q.kwarg(e.call, 'variables'), e.fn, e.bind)
-        ok = ok and rec is not None and 'cmd' in rec and param_of(
-            F.flow.rec_atoms(rec, 'cmd'), 'command')
+        for x, xf, xb in e.kw_exprs('variables'):
+            rec = F.flow.record(x, xf, xb)
+            ok = ok and rec is not None and 'cmd' in rec and param_of(
+                F.flow.rec_atoms(rec, 'cmd'), 'command')
     ctx.ob(R, f.fq + '|command-passed-as-build-variable', ok, f.node,
            'the command is not passed as build-scoped variable `cmd`')
 
